@@ -103,8 +103,67 @@ def declare(reg):
             "numeral-is-its-value": "implies(is_numeral(val), not is_none(result) and isinstance(some(result), int) and int_of(some(result)) == int(val))",
             "star-stays": "implies(val == '*', not is_none(result) and isinstance(some(result), str) and str_of(some(result)) == '*')",
             "anything-else-is-none": "implies(not is_numeral(val) and val != '*', is_none(result))",
+            # (true by definition of the named predicate; stated so that callers reasoning with it get the instance for this text)
+            "named-predicate": "num_text(val) == is_numeral(val)",
         },
         raises={},  # in particular not the builtin SyntaxError of its unreachable branch: the callers only catch BadCommand
         props=["C08", "C15"],
         ghost={"harness": "harness.parser:Totality"},
+    )
+
+    # ---- _p_msg_set (C15, C08): the text of a sequence set is decoded piece by piece into a well-formed message set -------------
+    SIDE = r"(\d+|\*)"
+    reg.classes["ReMatch"].fields["g1"] = __import__("pyvc.sorts", fromlist=["parse_ty"]).parse_ty("str")
+    reg.classes["ReMatch"].fields["g2"] = __import__("pyvc.sorts", fromlist=["parse_ty"]).parse_ty("str")
+    reg.opaque_names["_msg_set_re"] = "opaque:Pattern"
+    reg.opaque_names["_msg_set_pair_re"] = "opaque:Pattern"
+    reg.specfn("msg_set_prefix", "inp: str", "str", doc="the longest prefix of the input made of digits, ',', ':' and '*' (what _msg_set_re matches at position 0)")
+    reg.dynamic_dispatch[r"self\._p_re\(_msg_set_re, syntax_error='missing or invalid message sequence set'\)"] = "IMAPClientCommand.p_re_msg_set"
+    reg.contract(P, "IMAPClientCommand.p_re_msg_set", params={"self": "ref:IMAPClientCommand", "regexp": "opaque:Pattern", "syntax_error": "str"}, ret="opt[str]",
+                 raises={"NoMatch": None, "BadSyntax": None}, exc_ensures={"untouched": "self.input == old(self.input)"},
+                 ensures={"matched": r"not is_none(result) and matches(some(result), r'[0-9,:*]+')", "consumed": "old(self.input) == some(result) + self.input",
+                          "is": "some(result) == msg_set_prefix(old(self.input))"},
+                 modifies=["self.input"], **T, note="parser primitive on _msg_set_re: consumes and returns the longest prefix made of digits, ',', ':' and '*' (at least one character)")
+    reg.specfn("pair_left", "t: str", "str", doc="the text before the ':' of a range a:b (group 1 of _msg_set_pair_re)")
+    reg.specfn("pair_right", "t: str", "str", doc="the text after the ':' of a range a:b (group 2 of _msg_set_pair_re)")
+    reg.dynamic_dispatch[r"_msg_set_pair_re\.search\(seq_num\)"] = "re.pair_search"
+    reg.contract("<re>", "re.pair_search", params={"self": "ref:IMAPClientCommand", "s": "str"}, ret="opt[ref:ReMatch]",
+                 ensures={"iff": rf"(not is_none(result)) == matches(s, r'{SIDE}:{SIDE}')",
+                          "groups": rf"implies(not is_none(result), some(result).g1 == pair_left(s) and some(result).g2 == pair_right(s) and s == pair_left(s) + ':' + pair_right(s) and "
+                                    rf"matches(pair_left(s), r'{SIDE}') and matches(pair_right(s), r'{SIDE}'))"},
+                 **T, note=r"A-RE: ^(\d+|\*):(\d+|\*)$ matches exactly the texts a:b with a, b a numeral or '*'; groups 1 and 2 are a and b")
+    reg.dynamic_dispatch[r"search\.group\(1\)"] = "re.pair_group1"
+    reg.dynamic_dispatch[r"search\.group\(2\)"] = "re.pair_group2"
+    for g in ("1", "2"):
+        reg.contract("<re>", "re.pair_group" + g, params={"self": "ref:IMAPClientCommand", "m": "opt[ref:ReMatch]"}, ret="str",
+                     ensures={"is": f"result == some(m).g{g}"}, **T, ghost={"skip_args": True, "bind_locals": {"m": "search"}}, note="A-RE: group " + g + " of the match")
+    reg.specfn("num_text", "t: str", "bool", "is_numeral(t)", recursive=True, doc="t is a numeral (a named predicate, so that quantified invariants mention an atom instead of a regular-language membership)")
+    reg.specfn("side_of", "b: IntOrStar, t: str", "bool", "ite(t == '*', isinstance(b, str) and str_of(b) == '*', isinstance(b, int) and int_of(b) == int(t))",
+               doc="one side of a range, or a single number, as decoded from its text")
+    reg.specfn("piece_decoded", "e: MsgElt, t: str", "bool",
+               "ite(num_text(t), isinstance(e, int) and int_of(e) == int(t), ite(t == '*', isinstance(e, str) and str_of(e) == '*', "
+               "isinstance(e, tuple) and t == pair_left(t) + ':' + pair_right(t) and side_of(e[0], pair_left(t)) and side_of(e[1], pair_right(t))))",
+               recursive=True, doc="a message-set element is what its comma-separated piece of text says")
+    reg.contract(
+        P, "IMAPClientCommand._p_msg_set", params={"self": "ref:IMAPClientCommand"}, ret="list[MsgElt]",
+        ensures={
+            # what every evaluator of message sets requires (C15): the parser is where that precondition comes from
+            "well-formed": "wf_msgset(result)",
+            # C08: decoded faithfully, piece by piece, in order
+            "piece-by-piece": "old(self.input) == msg_set_prefix(old(self.input)) + self.input and len(result) == len(msg_set_prefix(old(self.input)).split(',')) and "
+                              "forall(lambda i: implies(0 <= i and i < len(result), piece_decoded(result[i], msg_set_prefix(old(self.input)).split(',')[i])))",
+        },
+        raises={"NoMatch": None, "BadSyntax": None},
+        modifies=["self.input"],
+        loops={0: {"invariant": {
+            "count": "len(result) == _i",
+            "wf-so-far": "forall(lambda j: implies(0 <= j and j < _i, wf_elt(result[j])))",
+            "numbers-so-far": "forall(lambda j: implies(0 <= j and j < _i and num_text(_it[j]), isinstance(result[j], int) and int_of(result[j]) == int(_it[j])))",
+            "stars-so-far": "forall(lambda j: implies(0 <= j and j < _i and _it[j] == '*', isinstance(result[j], str) and str_of(result[j]) == '*'))",
+            "ranges-so-far": "forall(lambda j: implies(0 <= j and j < _i and not num_text(_it[j]) and _it[j] != '*', isinstance(result[j], tuple) and _it[j] == pair_left(_it[j]) + ':' + pair_right(_it[j]) and "
+                             "side_of(result[j][0], pair_left(_it[j])) and side_of(result[j][1], pair_right(_it[j]))))",
+            "input-kept": "self.input == lpre(self.input)",
+        }}},
+        locals_={"result": "list[MsgElt]"},
+        props=["C15", "C08"],
     )
